@@ -415,6 +415,16 @@ int main(int argc, char** argv)
     char tag[32]; snprintf(tag, sizeof tag, "c15-%d", cycles);
     harness_init(tag);
     auto t0 = std::chrono::steady_clock::now();
+    if (!replay.empty() && !replay.compare(0, 5, "desc=")) {
+        int k = 0, d0 = 1, d1 = 1, d2 = 1, d3 = 1, ml = -1;
+        sscanf(replay.c_str(), "desc=%d,%d,%d,%d,%d,%d", &k, &d0, &d1, &d2, &d3, &ml);
+        std::string meta = ml < 0 ? "{}" : "{\"k\":\"" + std::string((size_t)ml, 'x') + "\"}";
+        std::string v = description_run(k, d0, d1, d2, d3, meta);
+        h_rmtree(g_scratch);
+        if (v.empty()) { printf("RESULT ok\n"); return 0; }
+        printf("RESULT VIOLATION C15:%s\n", v.c_str());
+        return 1;
+    }
     if (!replay.empty()) {
         Spec s; if (!parse_spec(replay, s)) { fprintf(stderr, "bad spec\n"); return 2; }
         std::string v = execute(s);
@@ -479,16 +489,16 @@ int main(int argc, char** argv)
                 std::string clause = v.substr(0, v.find('|')), detail = v.substr(v.find('|') + 1);
                 std::string key = std::string(kind == BasicDevice_Storage_Tiff ? "tiff:" : "tiff-json:") + "description-sweep:" + clause;
                 auto& e = viols[key];
-                if (!e.count) { e.clause = key; e.detail = detail + " [" + spec + "]"; e.spec = "kind=" + std::to_string(kind) + ",shape=0,type=0,cycles=1;n=1,group=0,meta=1,scale=0,uri=0"; }
+                if (!e.count) { e.clause = key; e.detail = detail; e.spec = spec; }
                 ++e.count;
             };
             for (int S = 4; S <= 80; ++S) {
                 int d[4]; for (int k = 0; k < 4; ++k) d[k] = S / 4 + (k < S % 4 ? 1 : 0);
-                note2(description_run(kind, d[0], d[1], d[2], d[3], "{}"), "digits " + std::to_string(d[0]) + "," + std::to_string(d[1]) + "," + std::to_string(d[2]) + "," + std::to_string(d[3]));
+                note2(description_run(kind, d[0], d[1], d[2], d[3], "{}"), "desc=" + std::to_string(kind) + "," + std::to_string(d[0]) + "," + std::to_string(d[1]) + "," + std::to_string(d[2]) + "," + std::to_string(d[3]) + ",-1");
             }
             for (int L = 0; L <= 200; ++L) {
                 std::string meta = "{\"k\":\"" + std::string((size_t)L, 'x') + "\"}";
-                note2(description_run(kind, 1, 4, 5, 5, meta), "metadata of " + std::to_string(meta.size()) + " characters");
+                note2(description_run(kind, 1, 4, 5, 5, meta), "desc=" + std::to_string(kind) + ",1,4,5,5," + std::to_string(L));
             }
         }
     unsigned long long large = 0;
